@@ -10,6 +10,10 @@ NOTE = ("Trusted base: go/types (type checking and constant evaluation), golang.
         "The check decides the named structural clauses only; the value-level remainder listed in the evidence under not_covered is not claimed.")
 
 CLAIMED = {
+ "C01": dict(level="other",
+   technique="static analysis: codec plan model of the reflective coder over all reachable struct types + SSA path-by-path trace comparison of every hand-written decoder with the encoder of the same struct",
+   text="Decides encoder/decoder agreement, a necessary condition of the round trip, for every struct type reachable from the root messages (111 reflectively encoded, 103 reflectively decoded, 12 hand-written decoders): each field resolves to a tag and a supported kind in both directions, no optional or repeated field can steal a same-tag successor, every uint32 field type is a registered enumeration, and on every acyclic success path each hand-written decoder reads the encoder's elements in order into the field they were written from, tolerating exactly the omissions the encoder can make and dropping nothing. Found and now guards two decoder defects (Import Key Wrap Type, response Message Extension). Value-level equality (two's complement, padding, byte identity) is not decided.",
+   ref="§4 C01"),
  "C17": dict(level="proof",
    technique="static analysis: exhaustive table evaluation of the init-time registry from source literals (go/types constants) + pinned reference comparison",
    text="Finite and exhaustive: every one of the 292 tags, 601 enumeration values and 22 mask flags registered by the init functions is evaluated from the source literals and shown unique in both directions within its scope, lexically safe for XML/JSON/text, identical to the pinned KMIP 1.0-1.4 registry, wired to its own tag in MarshalText/UnmarshalText, and registered only from init. A proof over the static registry model, not over sampled lookups.",
